@@ -238,7 +238,7 @@ def evaluate(program, max_fix_steps=120, row_cap=20000):
 
 def header(p):
   """Documented column names of a predicate of the fragment (positional arguments)."""
-  cols = ['col%d' % i for i in range(p['arity'])]
+  cols = list(p['cols']) if p.get('cols') else ['col%d' % i for i in range(p['arity'])]
   if p['kind'] == 'agg':
     cols.append('logica_value')
   return cols
